@@ -92,7 +92,27 @@ func buildFailing(r *rand.Rand, d *vkit.JNode, yaml bool, used *[]vkit.JPath) (a
 			return nil, fSpec{}, false
 		}
 		*used = append(*used, p)
-		return match.Custom(pathOf(p), func(v any) (any, error) { return nil, errors.New("callback says no") }), fSpec{"Custom", pathOf(p), "callback-error"}, true
+		// the error a callback returns may come from anywhere, e.g. from a matcher the callback
+		// applies to the value it was handed (the idiom for masking inside array elements)
+		cbErr := errors.New("callback says no")
+		kind := "callback-error"
+		switch r.IntN(4) {
+		case 0:
+			if _, es := match.Any("no.such.member").JSON([]byte(`{"a":1}`)); len(es) == 1 {
+				cbErr, kind = es[0].Reason, "callback-error-taken-from-a-nested-matcher"
+			}
+		case 1:
+			if _, es := match.Type[string]("a").JSON([]byte(`{"a":1}`)); len(es) == 1 {
+				cbErr, kind = fmt.Errorf("element 0: %w", es[0].Reason), "callback-error-wrapping-a-nested-matcher-error"
+			}
+		}
+		cm := match.Custom(pathOf(p), func(v any) (any, error) { return nil, cbErr })
+		if r.IntN(2) == 0 {
+			// lenient about a MISSING path; the path exists, so the callback's error still counts
+			cm = cm.ErrOnMissingPath(false)
+			kind += "-lenient-matcher"
+		}
+		return cm, fSpec{"Custom", pathOf(p), kind}, true
 	}
 }
 
@@ -124,7 +144,7 @@ func free(p vkit.JPath, used []vkit.JPath) bool {
 }
 
 func checkC17(c *vkit.Ctx) {
-	c.P.Rule = "case = (document, 1-4 matchers mixing satisfiable ones with failing ones - missing path on Any/Type/Custom, Type of the wrong type, Custom callback error - in random order, entry point MatchJSON|MatchYAML|MatchStandaloneJSON, mode create-allowed|Update(true)|UPDATE_SNAPS=true|CI, slot missing|equal|different); oracle: exactly one Error naming match.<Name>(\"<path>\") for every failing matcher, directory digest unchanged (backdated mtimes), and a following plain call of the same test lands in ordinal 2; every 4th case is the ErrOnMissingPath(false) metamorphic check (a missing path is ignored: same stored text as without that matcher); non-trivial = >=1 failing and >=1 satisfiable matcher in one call, or the ErrOnMissingPath(false) variant; distinct by hash(document, matchers, api, mode, slot state)"
+	c.P.Rule = "case = (document, 1-4 matchers mixing satisfiable ones with failing ones - missing path on Any/Type/Custom, Type of the wrong type, Custom callback error (a fresh error, or one taken from / wrapping the error of a matcher applied inside the callback; the Custom matcher strict or lenient about missing paths) - in random order, entry point MatchJSON|MatchYAML|MatchStandaloneJSON, mode create-allowed|Update(true)|UPDATE_SNAPS=true|CI, slot missing|equal|different); oracle: exactly one Error naming match.<Name>(\"<path>\") for every failing matcher, directory digest unchanged (backdated mtimes), and a following plain call of the same test lands in ordinal 2; every 4th case is the ErrOnMissingPath(false) metamorphic check (a missing path is ignored: same stored text as without that matcher); non-trivial = >=1 failing and >=1 satisfiable matcher in one call, or the ErrOnMissingPath(false) variant; distinct by hash(document, matchers, api, mode, slot state)"
 	n := c.N(60000, 2000000)
 	for i := 0; i < n; i++ {
 		if !c.Mine(i) {
